@@ -548,6 +548,9 @@ CHECKS["C11"] = {
              "case non-trivial = some answer has >= 2 slots and its points came from >= 2 of {mutable memdb, immutable memdb, file}; "
              "TestQueryDuringFlush: same, with statements (and writes) placed at FS operations of the flush and between file commit and release of the immutable memdb, "
              "non-trivial additionally requires that window to be reached; TestConcurrentFlushQuery round non-trivial = >= 2 flushes and >= 10 checked answers; "
+             "TestQueryModelCoarseIntervals: the same on a month-type (5m/10m/30m: segment = month, family = day) or year-type (1h/4h: segment = year, family = month) database "
+             "with 2-4 families around day/month/year boundaries (Dec 31->Jan 1, Jan 31->Feb 1, Feb 28/29->Mar 1), ranges < 1h, 1h..1d, > 2d; "
+             "case non-trivial = a statement whose truncated range spans >= 2 segments returned >= 2 slots from >= 2 families; "
              "distinct = hash of schema + history"),
     "level_text": ("Exploration: thousands of generated histories per run, every statement compared with an independent model (exact because all values are dyadic); "
                    "flush interleavings are owned at seam granularity (deterministic, shrinkable), plus an unsystematic real-goroutine run whose oracle cannot raise false alarms "
@@ -560,6 +563,7 @@ CHECKS["C11"] = {
     "tests": [
         {"name": "TestQueryModel", "quick": 1200, "thorough": {"checks": 6000, "shards": 12}},
         {"name": "TestQueryModelHistogram", "quick": 500, "thorough": {"checks": 3000, "shards": 4}},
+        {"name": "TestQueryModelCoarseIntervals", "quick": 600, "thorough": {"checks": 4000, "shards": 6}},
         {"name": "TestQueryDuringFlush", "quick": 600, "thorough": {"checks": 4000, "shards": 6}},
         {"name": "TestConcurrentFlushQuery", "quick": 2, "thorough": {"checks": 1, "race": True, "timeout": 3000}},
         {"name": "TestRegression.*|TestModelSelfTest", "quick": {}, "thorough": {}},
